@@ -235,10 +235,46 @@ def same_range_file(r):
     return A.file(st, inherit=[name] if r.random() < 0.7 else []), src
 
 
+def collection_files():
+    """scoped variables read inside comprehensions, loops and literals over several nodes of which some lack the variable (the
+    run fails - no element is dropped), and scopes that are lists of nodes (never a valid scope, whatever their length)"""
+    v, c, i, s = A.var, A.cap, A.integer, A.string
+    blk = "(module (_)* @xs) @m "
+    define_some = A.stanza("(expression_statement) @s ", [A.let(A.svar(c("s"), "name"), A.call("source-text", c("s")))])
+    define_all = A.stanza("(module (_) @s) ", [A.let(A.svar(c("s"), "name"), A.call("node-type", c("s")))])
+    readers = {
+        "listc": A.listc(A.svar(v("x"), "name"), "x", c("xs")),
+        "setc": A.setc(A.svar(v("x"), "name"), "x", c("xs")),
+        "listc-call": A.listc(A.call("format", s("<{}>"), A.svar(v("x"), "name")), "x", c("xs")),
+        "listc-bad-elem": A.listc(A.call("plus", v("x"), i(1)), "x", A.lst(i(1), s("two"), i(3))),
+        "setc-bad-elem": A.setc(A.call("plus", v("x"), i(1)), "x", A.lst(i(1), s("two"), i(3))),
+        "set-literal-bad-elem": A.st(i(1), A.call("eq", i(1), s("a"))),
+        "list-literal-bad-elem": A.lst(i(1), A.call("no-such-function", i(1))),
+    }
+    files = []
+    for name, e in readers.items():
+        for defs in (define_some, define_all):
+            files.append((name, A.file([defs, A.stanza(blk, [A.node(A.svar(c("m"), "n")), A.attrn(A.svar(c("m"), "n"), A.attr("names", e)), A.let(v("u2"), c("xs"))])])))
+            files.append((name + "-unused", A.file([defs, A.stanza(blk, [A.let(v("unused"), e), A.node(A.svar(c("m"), "n")), A.let(v("u2"), c("xs"))])])))
+    # a list of nodes as scope: 0, 1 or several nodes
+    for q in ("(module (pass_statement)* @xs) @m ", "(module (expression_statement)* @xs) @m ", "(module (_)+ @xs) @m "):
+        files.append(("list-scope-define", A.file([A.stanza(q, [A.let(A.svar(c("xs"), "v"), i(1)), A.node(A.svar(c("m"), "n"))])])))
+        files.append(("list-scope-read", A.file([A.stanza(q, [A.node(A.svar(c("m"), "n")), A.attrn(A.svar(c("m"), "n"), A.attr("r", A.svar(c("xs"), "v")))])])))
+    return files
+
+
+def collection_cases(prefix):
+    cases = []
+    for k, (name, f) in enumerate(collection_files()):
+        for src in (1, 2, 6, 8):
+            cases += A.both_modes("%s-coll-%d-%d" % (prefix, k, src), f, src)
+    return cases
+
+
 def shaped_cases(tier, prefix="c04s"):
     r = A.rng(44)
     n = 90 if tier == "quick" else 2000
-    cases = []
+    cases = collection_cases(prefix)
     for k in range(n):
         prog, src = (chain_file(r) if k % 4 in (1, 2) else same_range_file(r)) if k % 4 else computed_scope_file(r)
         cases += A.both_modes("%s-%d" % (prefix, k), prog, src)
